@@ -27,8 +27,29 @@ func isSingleAtomPremise(premises []ast.Term) bool {
 	if len(premises) != 1 {
 		return false
 	}
-	_, ok := premises[0].(ast.Atom)
-	return ok
+	a, ok := premises[0].(ast.Atom)
+	if !ok {
+		return false
+	}
+	// The facts of such an atom are handed to the transform as they are
+	// found in the store. That is only correct if matching the atom needs
+	// neither unification (a repeated variable) nor evaluation (a function
+	// expression such as fn:pair(/a, 1)); otherwise the clause is rewritten
+	// like a multi-premise one.
+	seen := make(map[ast.Variable]bool)
+	for _, arg := range a.Args {
+		switch t := arg.(type) {
+		case ast.Constant:
+		case ast.Variable:
+			if t.Symbol != "_" && seen[t] {
+				return false
+			}
+			seen[t] = true
+		default:
+			return false
+		}
+	}
+	return true
 }
 
 // Rewrite transforms each clause of a given layer (stratum) of a program to another one where
